@@ -64,6 +64,23 @@ func init() {
 		Stubs: []string{pureStub, "Reed-Solomon summary"}, Bound: "n <= 2 symbolic bytes", Configs: tiered(one("n", 0, 1, 2), one("n", 0, 1, 2, 3)), Tune: rs})
 	reg(&Oblig{ID: "PURE-az", Pkg: "aztec", Func: "VP_AZ_pure", Props: []string{"C15", "C16"}, Desc: "Aztec Encode on symbolic binary payload repeated around an unrelated call: same pixels, Content; no write to package-level state (each call builds its own field and encoder)",
 		Stubs: []string{pureStub, "Reed-Solomon summary"}, Bound: "n <= 2 symbolic bytes >= 0x80", Configs: tiered(one("n", 1, 2), one("n", 1, 2, 3)), Tune: rs})
+	reg(&Oblig{ID: "MAPORDER-az", Pkg: "aztec", Func: "VP_AZ_maporder", Props: []string{"C15"}, Desc: "Aztec high-level encoding of a symbolic byte after each prefix: same bit stream under ascending and descending map iteration order",
+		Stubs: []string{"map range order: ascending keys by default, vpMapOrder(true) = descending"}, Bound: "1 symbolic byte after each of 13 prefixes (quick); 2 symbolic bytes from the initial state (thorough)",
+		Configs: func(tier string, seed int64) []map[string]int {
+			var out []map[string]int
+			for p := 0; p <= 12; p++ {
+				out = append(out, map[string]int{"n": 1, "prefix": p})
+			}
+			if tier == "thorough" {
+				out = append(out, map[string]int{"n": 2, "prefix": 0})
+			}
+			return out
+		},
+		Tune: func(in *exec.Instance, tier string) {
+			if tier == "thorough" {
+				in.TimeLimit = 0
+			}
+		}})
 	reg(&Oblig{ID: "PURE-pdf", Pkg: "pdf417", Func: "VP_PDF_pure", Props: []string{"C15", "C16"}, Desc: "PDF417 Encode on symbolic letters repeated around an unrelated call: same pixels, Content; no write to package-level state",
 		Stubs: []string{pureStub}, Bound: "n in {1, 3} symbolic upper-case letters", Configs: tiered(one("n", 1, 3), one("n", 1, 3, 4)),
 		Tune: func(in *exec.Instance, tier string) {
